@@ -20,7 +20,7 @@ def open_store(backend, path, create=False):
         from xandikos.store.git import BareGitStore
         assert create
         st = BareGitStore.create_memory()
-    elif backend == "bare-disk":
+    elif backend in ("bare-disk", "bare"):
         from xandikos.store.git import BareGitStore, GitStore
         st = BareGitStore.create(path) if create else GitStore.open_from_path(path)
     elif backend == "tree":
